@@ -44,7 +44,8 @@ ERR_RX = re.compile(r"return\s+Err\(\s*MechError::new\(\s*(\w+)\s*\{[^}]*\}\s*,.
 
 
 def harness_modules():
-    return [dict(crate="mech-interpreter", file="src/statements.rs", mod="verif_c05", gen="C05/k_detach.rs")]
+    return [dict(crate="mech-interpreter", file="src/statements.rs", mod="verif_c05", gen="C05/k_detach.rs"),
+            dict(crate="mech-interpreter", file="src/stdlib/assign/mod.rs", mod="verif_c05_assign", gen="C05/k_assign.rs")]
 
 
 def rewrite_errors(text):
@@ -231,6 +232,57 @@ vk_registry!{ vkreplay_c05; vkc05_detach_separation_f64, vkc05_detach_value_pres
 '''
 
 
+KANI_ASSIGN = '''// C05 whole-variable assignment kernel `x = y` (in-module harness on stdlib/assign/mod.rs: Assign<T> is private)
+#![allow(unused, non_snake_case)]
+use super::*;
+include!("/verif/contracts/common/vk.rs");
+
+#[cfg_attr(kani, kani::proof)]
+#[cfg_attr(kani, kani::unwind(4))]
+pub(crate) fn vkc05_assign_whole_variable_f64() {
+  let a: f64 = vk::any(); let b: f64 = vk::any();
+  let sink: Ref<f64> = Ref::new(a);
+  let source: Ref<f64> = Ref::new(b);
+  let f = Assign::<f64> { sink: sink.clone(), source: source.clone() };
+  vk::reach();
+  f.solve();
+  assert!(sink.borrow().to_bits() == b.to_bits(), "VK: after x = y, x holds the value of y");
+  assert!(source.borrow().to_bits() == b.to_bits(), "VK: assigning through one variable never changes the value seen through another name");
+}
+
+vk_registry!{ vkreplay_c05a; vkc05_assign_whole_variable_f64 }
+'''
+
+
+def assign_unit(plan):
+    """(X) `Assign<T>::solve` (src/interpreter/src/stdlib/assign/mod.rs): the two pointer bindings `self.source.as_ptr()` /
+    `self.sink.as_mut_ptr()` become the parameters `source_ptr: &u64`, `sink_ptr: &mut u64`, `unsafe { }` is stripped, the statement
+    is kept verbatim.  The source is only borrowed immutably, so 'assigning through x never changes what another name sees'
+    is part of the signature; a body that needs a mutable source no longer fits (lost anchor => undecided, Kani twin decides)."""
+    from vlib import VerusUnit, find_code, match_brace
+    name = "C05.verus.Assign.solve"
+    ob = plan.ob(name, "verus", "proved", functions=["Assign<T>::solve"],
+                 what="after `x = y` the sink holds the source's value; the source (the other variable's storage) is only read")
+    text = read_repo("src/interpreter/src/stdlib/assign/mod.rs")
+    m = find_code(text, r"impl<T>\s+MechFunctionImpl\s+for\s+Assign<T>")
+    if not m:
+        raise AnchorLost("impl MechFunctionImpl for Assign<T> not found")
+    i = text.index("{", text.index("where", m.end()))
+    blk = text[m.start():match_brace(text, i)]
+    sig, body = extract_fn(blk, "solve")
+    b = re.sub(r"//[^\n]*", "", body).strip()[1:-1]
+    b, n1 = re.subn(r"let\s+source_ptr\s*=\s*self\.source\.as_ptr\(\)\s*;", "", b)
+    b, n2 = re.subn(r"let\s+sink_ptr\s*=\s*self\.sink\.as_mut_ptr\(\)\s*;", "", b)
+    mu = re.search(r"unsafe\s*\{", b)
+    if n1 != 1 or n2 != 1 or not mu or "self." in b:
+        raise AnchorLost("Assign<T>::solve: expected `let source_ptr = self.source.as_ptr(); let sink_ptr = self.sink.as_mut_ptr(); unsafe { .. }`")
+    e = match_brace(b, mu.end() - 1)
+    inner = b[mu.end():e - 1]
+    fn = "fn assign_solve(source_ptr: &u64, sink_ptr: &mut u64)\n  ensures *final(sink_ptr) == *source_ptr,\n{\n%s\n}\n" % inner
+    plan.verus.append(VerusUnit("c05_assign", vlib.verus_file([fn, vlib.verus_canary("canary_assign", "x: u64", [])]), {"assign_solve": name}, ["canary_assign"]))
+    plan.dropped.append(assign_unit.__doc__.strip())
+
+
 def plan(plan, tier, seed):
     try:
         verus_unit(plan)
@@ -244,7 +296,16 @@ def plan(plan, tier, seed):
         "vkc05_detach_value_preserved_f64": plan.ob("C05.detach.value_preserved.f64", "kani", "proved", functions=["detach_variable_value"],
                                                     what="detach_variable_value preserves kind and value"),
     }
-    plan.kani.append(dict(package="mech-interpreter", filters=["vkc05_"], harness=hmap, timeout=2400, replay_entry="vkreplay_c05"))
+    plan.harness_files[os.path.join(GEN, "C05", "k_assign.rs")] = KANI_ASSIGN
+    hmap["vkc05_assign_whole_variable_f64"] = plan.ob("C05.assign.whole_variable.f64", "kani", "proved", functions=["Assign<f64>::solve"],
+                                                        what="after `x = y` (real struct, real Ref cells, all f64 values): x holds y's value and y is unchanged")
+    plan.kani.append(dict(package="mech-interpreter", filters=["vkc05_"], harness=hmap, timeout=2400,
+                          replay_entry=lambda h: "vkreplay_c05a" if "assign" in h else "vkreplay_c05"))
+    # whole-variable assignment `x = y`: the kernel copies the source into the sink and leaves the source alone
+    try:
+        assign_unit(plan)
+    except Exception as e:
+        plan.anchor_errors.append(("C05.verus.Assign.solve", repr(e)))
     # 'a statement that fails leaves every existing binding exactly as before': for an indexed assignment the binding is
     # the sink matrix the kernel writes in place, so the clause is the .atomic obligation of the assignment kernels (proved
     # or refuted in C04); two representative kernels are re-checked here so that this check reports the finding as well
